@@ -457,7 +457,7 @@ func genSignedBase(t *rapid.T) SignedBase {
 
 var specC16 = Register(&Spec[SigCase]{
 	Prop: "C16", Name: "debsig",
-	Rule:  "fault enumeration over generated debsig-signed packages (C14 models with stored/gzip/zstd members, role in {origin, maint, archive}, RSA signer from a per-process pool, detached binary signature over debian-binary|control|data in '_gpg<role>'): the untampered package with the signer in the keyring (accept - and after the check the handle still delivers the signed payload, and a repeated check agrees; the same with another signed package of the same layout loaded before and after it and left open); EVERY single-byte XOR 0x01 inside the three signed members (reject); a decoy control.*/data.* member with a different extension (a stored tar carrying 'Package: evil', or a copy) a same-name duplicate with changed content, and EMPTY ones (a bare 60-byte header, also with a blank size column) inserted at EVERY member position - the end of the file included -, each loaded 64 times (reject); a decoy behind a run of 60 .. 128 NUL / newline bytes that follows the genuine members (reject); a decoy named the GNU way - a '//' name table plus a member '/0' - at every position (must fail or expose the signed content); a role that is not present, an unrelated keyring, an empty keyring - nil slice or empty slice - (reject); data and control swapped in the file with a signature made over the file-order concatenation (reject) or the genuine one (must fail or expose the signed content); a second CheckDebsig on the same handle with an unrelated or empty keyring after a successful first one (the second must fail); EVERY single-byte XOR inside the signature member (must fail or still verify the unmodified content); per signed member one altered byte in a package loaded from a FILE that is closed before the check while its path (or the path told to Load) leads to the genuine package (reject); the signature member followed by junk, a NUL byte, a newline, CR LF, a blank or 0xff, a truncated or a damaged second signature, followed by the first k bytes of a second copy for EVERY k; the good signature in front of or behind a signature of a key nobody knows, and followed by such signatures (sized by a private-use subpacket) that fill the member to exactly 4 KiB, 64 KiB or 1 MiB (accepted - then the payload handed out after the check is the signed one - or refused for a reason of its own) and then by junk, a damaged copy of the good one or a user-ID packet (reject); with a well-formed user-ID or literal-data packet or an empty / one-byte / indeterminate-length signature packet in front of or behind it, and a second copy whose version, public-key-algorithm or hash-algorithm byte lost a bit (five masks) in front of or behind the good one (reject); the signature member replaced by its ASCII-armored form, alone (either outcome), with a foreign/empty keyring and with flipped bytes in each signed member (reject). Oracle: reject => Load or CheckDebsig fails on every repetition; always: if both succeed, the control data exposed equals the signed package's model and the signer is the signing entity. Non-trivial: every faulted case; distinct by (bytes, role, keyring).",
+	Rule:  "fault enumeration over generated debsig-signed packages (C14 models with stored/gzip/zstd members, role in {origin, maint, archive}, RSA signer from a per-process pool, detached binary signature over debian-binary|control|data in '_gpg<role>'): the untampered package with the signer in the keyring (accept - and after the check the handle still delivers the signed payload, and a repeated check agrees; the same with another signed package of the same layout loaded before and after it and left open); EVERY single-byte XOR 0x01 inside the three signed members (reject); a decoy control.*/data.* member with a different extension (a stored tar carrying 'Package: evil', or a copy) a same-name duplicate with changed content, and EMPTY ones (a bare 60-byte header, also with a blank size column) inserted at EVERY member position - the end of the file included -, each loaded 64 times (reject); a decoy behind a run of 60 .. 128 NUL / newline bytes that follows the genuine members (reject); a decoy named the GNU way - a '//' name table plus a member '/0' - at every position (must fail or expose the signed content); a role that is not present (another role, another case, or the signature member named for the role plus a tab, NULs, a CR, a dot), an unrelated keyring, an empty keyring - nil slice or empty slice - (reject); data and control swapped in the file with a signature made over the file-order concatenation (reject) or the genuine one (must fail or expose the signed content); a second CheckDebsig on the same handle with an unrelated or empty keyring after a successful first one (the second must fail); EVERY single-byte XOR inside the signature member (must fail or still verify the unmodified content); per signed member one altered byte in a package loaded from a FILE that is closed before the check while its path (or the path told to Load) leads to the genuine package (reject); the signature member followed by junk, a NUL byte, a newline, CR LF, a blank or 0xff, a truncated or a damaged second signature, followed by the first k bytes of a second copy for EVERY k; the good signature in front of or behind a signature of a key nobody knows, and followed by such signatures (sized by a private-use subpacket) that fill the member to exactly 4 KiB, 64 KiB or 1 MiB (accepted - then the payload handed out after the check is the signed one - or refused for a reason of its own) and then by junk, a damaged copy of the good one or a user-ID packet (reject); with a well-formed user-ID or literal-data packet or an empty / one-byte / indeterminate-length signature packet in front of or behind it, and a second copy whose version, public-key-algorithm or hash-algorithm byte lost a bit (five masks) in front of or behind the good one (reject); the signature member replaced by its ASCII-armored form, alone (either outcome), with a foreign/empty keyring and with flipped bytes in each signed member (reject). Oracle: reject => Load or CheckDebsig fails on every repetition; always: if both succeed, the control data exposed equals the signed package's model and the signer is the signing entity. Non-trivial: every faulted case; distinct by (bytes, role, keyring).",
 	Check: checkSigCase,
 })
 
@@ -535,6 +535,18 @@ func enumerateSigFaults(b SignedBase, yield func(SigCase) bool) bool {
 			if !yield(c) {
 				return false
 			}
+		}
+	}
+	// ... and a member that is ALMOST named for the role - the name with a tab, NULs, a blank and a
+	// tab, a CR or a dot behind it, or in another case - is not the role's signature either
+	for _, suffix := range []string{"\t", "\x00\x00", " \t", "\r", ".", "\v", "_"} {
+		if len("_gpg"+b.Role+suffix) > 16 {
+			continue
+		}
+		rm := append([]ArMember{}, members...)
+		rm[len(rm)-1].Name = "_gpg" + b.Role + suffix
+		if !yield(mk(renderAr(rm), "reject", "role:near-name", 1)) {
+			return false
 		}
 	}
 	// byte faults
